@@ -335,3 +335,7 @@ def run(rep: Report, prog: Program, tier: str) -> None:
     # ---------------- C13-LIFE (rules/C13life.py): lifecycle scenarios between two abstract transports
     from .C13life import run_life
     run_life(rep, prog, tier)
+
+    # ---------------- C13-POLICY (rules/C13life.py): per-channel reliability parameters at the hand-over to _send()
+    from .C13life import run_policy
+    run_policy(rep, prog, PROP, "C13-POLICY")
